@@ -14,27 +14,27 @@ Open Scope Z_scope.
    the method is drift / static drift and the NodeClaim has a terminationGracePeriod, and meets the
    method's pool / condition / emptiness requirements. *)
 Theorem candidate_implies_eligible : forall w m ids id, pdbs_wf w -> get_candidates w m = Some ids ->
-  In id ids -> exists n, In n (w_nodes w) /\ s_id n = id /\ eligible w (final w) m n.
+  In id ids -> exists n, In n (final_nodes w) /\ s_id n = id /\ eligible w (final w) m n.
 Proof. exact candidate_implies_eligible_l. Qed.
 Print Assumptions candidate_implies_eligible.
 
 (* Exact characterisation: candidates are the eligible nodes that also meet the technical requirements
    (pool has instance types; consolidation needs instance-type / capacity-type / zone labels; pods listable). *)
 Theorem candidate_iff : forall w m ids id, pdbs_wf w -> get_candidates w m = Some ids ->
-  (In id ids <-> exists n, In n (w_nodes w) /\ s_id n = id /\ eligible w (final w) m n /\ extra_b w m n = true).
+  (In id ids <-> exists n, In n (final_nodes w) /\ s_id n = id /\ eligible w (final w) m n /\ extra_b w m n = true).
 Proof. exact candidate_iff_l. Qed.
 Print Assumptions candidate_iff.
 
 (* Only drift / static drift may override pod-level blockers, and only with a terminationGracePeriod. *)
 Theorem pod_blockers_only_drift_with_tgp : forall w m ids id, pdbs_wf w -> get_candidates w m = Some ids -> In id ids ->
-  exists n c, In n (w_nodes w) /\ s_id n = id /\ s_claim n = Some c /\
+  exists n c, In n (final_nodes w) /\ s_id n = id /\ s_claim n = Some c /\
     (pod_blocked (d_now (final w)) (w_pdbs w) n -> (m = Drift \/ m = StaticDrift) /\ c_tgp c = true).
 Proof. exact pod_blockers_l. Qed.
 Print Assumptions pod_blockers_only_drift_with_tgp.
 
 Theorem graceful_never_blocked : forall w m ids id, pdbs_wf w -> get_candidates w m = Some ids -> In id ids ->
   eventual m = false ->
-  exists n, In n (w_nodes w) /\ s_id n = id /\ ~ pod_blocked (d_now (final w)) (w_pdbs w) n.
+  exists n, In n (final_nodes w) /\ s_id n = id /\ ~ pod_blocked (d_now (final w)) (w_pdbs w) n.
 Proof. exact graceful_never_blocked_l. Qed.
 Print Assumptions graceful_never_blocked.
 
@@ -42,27 +42,39 @@ Print Assumptions graceful_never_blocked.
    non-empty nodes need a policy other than WhenEmpty; emptiness needs an empty node without buffer pods. *)
 Theorem consolidation_requires : forall w m ids id, pdbs_wf w -> get_candidates w m = Some ids -> In id ids ->
   is_consolidation m = true ->
-  exists n c pl, In n (w_nodes w) /\ s_id n = id /\ s_claim n = Some c /\ o_pool w n = Some pl /\
+  exists n c pl, In n (final_nodes w) /\ s_id n = id /\ s_claim n = Some c /\ o_pool w n = Some pl /\
     c_consolidatable c = Some CTrue /\ pl_static pl = false /\ (exists a, pl_after pl = Some a) /\
     (m <> Emptiness -> ~ empty n /\ pl_policy pl <> "WhenEmpty") /\
     (m = Emptiness -> empty n /\ s_buffer n <= 0).
 Proof. exact consolidation_requires_l. Qed.
 Print Assumptions consolidation_requires.
 
-(* Histories: a node marked for deletion and not unmarked since is never a candidate ... *)
+(* Histories of Mark / Unmark / Nominate / tick / DeleteNode / DeleteNodeClaim / update operations on cluster state
+   ([ids_unique]: cluster.nodes is a map keyed by providerID). A node marked for deletion and not unmarked since is
+   never a candidate while its entry stays in cluster state (updates from new objects included) ... *)
 Theorem marked_protects : forall w m ids id ops1 ops2,
-  pdbs_wf w -> get_candidates w m = Some ids ->
-  w_ops w = (ops1 ++ OMark id :: ops2)%list -> no_unmark id ops2 -> ~ In id ids.
+  pdbs_wf w -> ids_unique w -> get_candidates w m = Some ids ->
+  (forall n, In n (w_nodes w) -> s_id n = id -> alive (mem_init n) = true) ->
+  w_ops w = (ops1 ++ OMark id :: ops2)%list -> no_unmark id ops2 -> no_delete id (w_ops w) -> ~ In id ids.
 Proof. exact marked_protects_l. Qed.
 Print Assumptions marked_protects.
 
 (* ... and a nominated node is never a candidate before max(2*BatchMaxDuration, 10s) of clock time passed. *)
 Theorem nominated_protects : forall w m ids id ops1 ops2,
-  pdbs_wf w -> get_candidates w m = Some ids ->
-  w_ops w = (ops1 ++ ONominate id :: ops2)%list -> no_nominate id ops2 -> ticks ops2 < nom_window (w_bm w) ->
-  ~ In id ids.
+  pdbs_wf w -> ids_unique w -> get_candidates w m = Some ids ->
+  (forall n, In n (w_nodes w) -> s_id n = id -> alive (mem_init n) = true) ->
+  w_ops w = (ops1 ++ ONominate id :: ops2)%list -> no_nominate id ops2 -> no_delete id (w_ops w) ->
+  ticks ops2 < nom_window (w_bm w) -> ~ In id ids.
 Proof. exact nominated_protects_l. Qed.
 Print Assumptions nominated_protects.
+
+(* Losing and regaining one of the two API objects (Node deleted and re-created while the NodeClaim stays, or the
+   reverse) keeps markedForDeletion and nominatedUntil. *)
+Theorem protection_survives_object_deletion : forall m, m_claim m = true -> m_node m = true ->
+  m_marked (f_refresh true true (f_delnode m)) = m_marked m /\ m_until (f_refresh true true (f_delnode m)) = m_until m /\
+  m_marked (f_refresh true true (f_delclaim m)) = m_marked m /\ m_until (f_refresh true true (f_delclaim m)) = m_until m.
+Proof. exact delete_keeps_memory. Qed.
+Print Assumptions protection_survives_object_deletion.
 
 (* A failing List of NodePools or PodDisruptionBudgets yields an error, never candidates. *)
 Theorem list_failure_no_candidates : forall w m, w_fault w = FPools \/ w_fault w = FPdbs -> get_candidates w m = None.
@@ -87,7 +99,7 @@ Print Assumptions requeue_hits_boundary.
 (* The oracles evaluated on the implementation's observations are the Prop specifications. *)
 Theorem oracle_is_spec : forall w m ids,
   holds_m w m ids = true <->
-  forall id, In id ids -> exists n, In n (w_nodes w) /\ s_id n = id /\ eligible w (final w) m n.
+  forall id, In id ids -> exists n, In n (final_nodes w) /\ s_id n = id /\ eligible w (final w) m n.
 Proof. exact holds_m_spec. Qed.
 Print Assumptions oracle_is_spec.
 
@@ -102,14 +114,14 @@ Print Assumptions model_meets_oracle.
 (* Literal reading 1: "empty" = "hosts no reschedulable pod". Refuted by a pod whose eviction cost is 0
    (documented design: designs/balanced-consolidation.md); holds when all reschedulable pods cost > 0. *)
 Theorem when_empty_literal_refuted :
-  exists w n pl, get_candidates w Emptiness = Some [s_id n] /\ In n (w_nodes w) /\ o_pool w n = Some pl /\
+  exists w n pl, get_candidates w Emptiness = Some [s_id n] /\ In n (final_nodes w) /\ o_pool w n = Some pl /\
                  pl_policy pl = "WhenEmpty" /\ ~ literally_empty n.
 Proof. exact when_empty_literal_refuted_l. Qed.
 Print Assumptions when_empty_literal_refuted.
 
 Theorem when_empty_literal_partial : forall w m ids id, pdbs_wf w -> get_candidates w m = Some ids -> In id ids ->
   is_consolidation m = true ->
-  exists n pl, In n (w_nodes w) /\ s_id n = id /\ o_pool w n = Some pl /\
+  exists n pl, In n (final_nodes w) /\ s_id n = id /\ o_pool w n = Some pl /\
     (positive_costs n -> (m = Emptiness -> literally_empty n) /\
                          (m <> Emptiness -> ~ literally_empty n /\ pl_policy pl <> "WhenEmpty")).
 Proof. exact when_empty_literal_partial_l. Qed.
@@ -118,13 +130,13 @@ Print Assumptions when_empty_literal_partial.
 (* Literal reading 2: "annotated" = "the Node object carries the annotation". Refuted while the Node lacks
    the registered label (annotations are then read from the NodeClaim); holds for registered nodes. *)
 Theorem node_dnd_literal_refuted :
-  exists w n k, get_candidates w Drift = Some [s_id n] /\ In n (w_nodes w) /\ s_node n = Some k /\
+  exists w n k, get_candidates w Drift = Some [s_id n] /\ In n (final_nodes w) /\ s_node n = Some k /\
                 get K_DND (k_annos k) = "true".
 Proof. exact node_dnd_literal_refuted_l. Qed.
 Print Assumptions node_dnd_literal_refuted.
 
 Theorem node_dnd_literal_partial : forall w m ids id, pdbs_wf w -> get_candidates w m = Some ids -> In id ids ->
-  exists n k, In n (w_nodes w) /\ s_id n = id /\ s_node n = Some k /\
+  exists n k, In n (final_nodes w) /\ s_id n = id /\ s_node n = Some k /\
     (get K_REG (k_labels k) = "true" -> get K_DND (k_annos k) <> "true").
 Proof. exact node_dnd_literal_partial_l. Qed.
 Print Assumptions node_dnd_literal_partial.
@@ -143,11 +155,26 @@ Proof. split; [vm_compute; reflexivity|]. intros b [E|[]]. subst b. simpl. lia. 
 
 Example nominated_history_premises :
   w_ops w_example = ([OTick 90000000000] ++ ONominate "nominated" :: [OTick 10000000000])%list /\
-  no_nominate "nominated" [OTick 10000000000] /\ ticks [OTick 10000000000] < nom_window (w_bm w_example).
+  no_nominate "nominated" [OTick 10000000000] /\ ticks [OTick 10000000000] < nom_window (w_bm w_example) /\
+  no_delete "nominated" (w_ops w_example) /\ ids_unique w_example /\
+  (forall n, In n (w_nodes w_example) -> s_id n = "nominated" -> alive (mem_init n) = true).
 Proof.
-  split; [reflexivity|]. split; [|vm_compute; reflexivity].
-  intros i [H|[]]. discriminate.
+  split; [reflexivity|]. split; [intros i [H|[]]; discriminate|]. split; [vm_compute; reflexivity|].
+  split; [intros i [H|H]; simpl in H; repeat (destruct H as [H|H]; try discriminate); contradiction|].
+  split.
+  - unfold ids_unique. simpl. repeat (constructor; [simpl; intros H; repeat (destruct H as [H|H]; try discriminate); exact H|]).
+    constructor.
+  - intros n H _. simpl in H. repeat (destruct H as [H|H]; [subst n; reflexivity|]). contradiction.
 Qed.
+
+(* a Node object deleted and re-created keeps the node protected; a fully removed and re-created entry does not *)
+Example delete_readd_example :
+  let w := mkWorld 0 10000000000 FNone (w_pools w_example) [] [nth 0 (w_nodes w_example) (mkSNode "" None None [] false 0)]
+                   [OMark "busy"; ODelNode "busy"; ORefresh "busy" true true] in
+  let w' := mkWorld 0 10000000000 FNone (w_pools w_example) [] [nth 0 (w_nodes w_example) (mkSNode "" None None [] false 0)]
+                   [OMark "busy"; ODelNode "busy"; ODelClaim "busy"; ORefresh "busy" true true] in
+  get_candidates w Drift = Some [] /\ get_candidates w' Drift = Some ["busy"].
+Proof. vm_compute. split; reflexivity. Qed.
 
 Example consolidatable_example :
   reconcile_consolidatable (mkCI 1029999999999 (Some 30000000000) (Some CTrue) 0 (Some 1000000000000) (Some CTrue)) = (None, 1) /\
